@@ -56,6 +56,10 @@ def cases(tier, seed):
                     for v in range(spec["nvar"]):
                         out.append(dict(kind="lin" if name != "stepper.Wave" else "wave", cls=name, D=D, N=N, v=v,
                                         rs=[seed, env.crc(name), D, N, v, rep], cost=N ** D))
+    for name in ("generic.GeneralLinearStepper", "generic.NormalizedLinearStepper", "generic.DifficultyLinearStepper"):        # the same classes typed with Python ints
+        for D in (1, 2, 3):
+            for N in ({1: [9, 12], 2: [6, 7], 3: [5]} if tier == "quick" else {1: [7, 9, 12, 16], 2: [5, 6, 7, 8], 3: [4, 5, 6]})[D]:
+                out.append(dict(kind="lin", cls=name, D=D, N=N, v=N % zoo.SPECS[name]["nvar"], ints=True, rs=[seed, env.crc(name), D, N, 99, 0], cost=N ** D))
     for x64 in (True, False):       # documented showcase configurations (docs/examples/solver_showcase_1d), 200-step rollouts, x64 and default float32 sessions
         for which in ("advection", "advection_diffusion", "dispersion", "general_linear", "diffusion_sines", "hyper_diffusion_sines", "wave_standing"):
             out.append(dict(kind="showcase", which=which, x64=x64, rs=[seed, env.crc(which)], cost=8))
@@ -129,6 +133,8 @@ def run_case(case, bus, ex):
     if case["kind"] == "wave":
         return run_wave(case, bus, ex, rng, L)
     it = zoo.make_intent(rng, name, D, N, L=L, dt=dt_draw(rng, None), variant=v)
+    if case.get("ints"):
+        zoo.intify(it)
     st = zoo.build(ex, it)
     Lr, dtr = linref.eff(it)
     kr = G.kint_rfft(D, N)
